@@ -129,3 +129,148 @@ def run_reorder(ck, srcs, one_target_srcs=(), targets=("sql.sqlite", "sql.generi
                     s.replace("\n", " | ")[:300], t, list(k), list(perm), json.dumps([pin.index(x) if x in pin else None for x in pout])),
                     {"src": s, "target": t, "codes": list(k), "model_order": list(perm), "impl_out": pout}, lambda _c: None)
     ck.coverage["reorder_hook"].update({"distinct_abstract_pipelines": len(keys), "moved": sum(1 for k, p in zip(keys, mv) if list(p) != list(range(len(k))))})
+
+
+# ------------------------------------------------------------------ split_off_back: the complexity half, for windowed computes
+SOB = "verif:split_off_back "
+HEADER_SOB = ("From Coq Require Import List NArith Bool.\nFrom PV Require Import Lib.ListX Model.WindowFns Model.SplitBase Model.WinAtomic Gen.GenSplit Gen.GenWindow.\n"
+              "Import ListNotations.\nLocal Open Scope N_scope.\n")
+KIND_CODE = {"From": 0, "Join": 1, "Filter": 2, "Aggregate": 3, "Sort": 6, "Select": 9, "Loop": 10, "Distinct": 11, "DistinctOn": 12,
+             "Union": 13, "Except": 14, "Intersect": 15}
+
+
+def expr_cids(e):
+    if isinstance(e, dict):
+        if "col" in e:
+            return [e["col"]]
+        out = []
+        for v in e.values():
+            out += expr_cids(v)
+        return out
+    if isinstance(e, list):
+        out = []
+        for x in e:
+            out += expr_cids(x)
+        return out
+    return []
+
+
+def expr_cx(e):
+    """anchor.rs infer_complexity_expr: Case => NonGroup; Operator / Array => max over the children; everything else Plain"""
+    if isinstance(e, dict):
+        if "case" in e:
+            return 1
+        if "op" in e:
+            return max([expr_cx(x) for x in e["op"]] or [0])
+        if "array" in e:
+            return max([expr_cx(x) for x in e["array"]] or [0])
+    return 0
+
+
+def compute_cx(c):
+    if c.get("window") is not None:
+        return 2
+    if c.get("is_aggregation"):
+        return 3
+    return expr_cx(c["expr"])
+
+
+def sob_item(t):
+    """(kind, super, cx, id, uses, wuses, agg) of Model/WinAtomic.v titem_of; None = a transform this abstraction does not know"""
+    k = t["kind"]
+    sup = bool(t.get("super"))
+    if k == "Compute" and sup:
+        c = t["compute"]
+        w = c.get("window")
+        return (5 if c.get("is_aggregation") else 4, sup, compute_cx(c), c["id"], expr_cids(c["expr"]), (w["partition"] + w["sort"]) if w else [], [])
+    if k == "Aggregate" and sup:
+        return (3, sup, 0, 0, list(t["partition"]), [], [(d["id"], compute_cx(d)) for d in t.get("decls", []) if d])
+    if k == "Filter" and sup:
+        return (2, sup, 0, 0, expr_cids(t["expr"]), [], [])
+    if k == "Sort":
+        return (6, sup, 0, 0, list(t["cids"]), [], [])
+    if k == "Take" and sup:
+        return (8 if t["cids"] else 7, sup, 0, 0, expr_cids(t["range"]), list(t["cids"]), [])
+    if k == "DistinctOn":
+        return (12, sup, 0, 0, list(t["cids"]), [], [])
+    if k == "Join" and not sup:
+        return (1, sup, 0, 0, expr_cids(t["expr"]), [], [])
+    if k in KIND_CODE and (k in ("Select", "Loop", "Filter", "Aggregate") or not sup):
+        return (KIND_CODE[k], sup, 0, 0, [], [], [])
+    return None
+
+
+def coq_item(it):
+    k, sup, cx, i, u, w, g = it
+    lst = lambda xs: "[" + "; ".join(str(x) for x in xs) + "]"
+    return "(%d, %s, %d, %d, %s, %s, [%s])" % (k, "true" if sup else "false", cx, i, lst(u), lst(w), "; ".join("(%d, %d)" % p for p in g))
+
+
+def is_windowed(it):
+    return it is not None and it[0] == 4 and it[2] == 2
+
+
+def run_split(ck, srcs, targets=("sql.sqlite",)):
+    """every call of split_off_back during the compiles: does the model of the complexity walk stop where the
+    implementation stopped?  Judged for the calls in which a windowed Compute is kept, is the stopping point, or lies
+    between the two stopping points; the others are counted (they belong to the owner of the whole walk)"""
+    reqs = [{"src": s, "target": t, "want": [], "msg_prefix": SOB.strip()} for s in dict.fromkeys(srcs) for t in targets]
+    ans = harness("log", reqs)
+    events = []
+    n_ok = 0
+    for rq, a in zip(reqs, ans):
+        n_ok += "ok" in a
+        for e in a.get("entries", []):
+            m = e.get("Message")
+            if m and m.startswith(SOB):
+                events.append((rq["src"], rq["target"], json.loads(m[len(SOB):])))
+    ck.coverage["split_hook"] = {"compiles": len(reqs), "compiled_ok": n_ok, "split_off_back_calls": len(events)}
+    if n_ok and not events:
+        ck.violation("hook verif:split_off_back produced no event on %d successful compiles: the model of the complexity walk is not tied to the code" % n_ok,
+                     {"kind": "hook-missing", "hook": "verif:split_off_back"}, no_input=True)
+        return
+    cases = {}
+    for s, t, e in events:
+        pipe = e["in"]["pipeline"]
+        items = [sob_item(x) for x in pipe]
+        if any(i is None for i in items):
+            ck.stat("split-corr", "skipped:unknown-transform")
+            continue
+        L = e.get("remaining_len")
+        kept_impl = len(pipe) if L is None else len(pipe) - (L - 1)
+        key = (tuple(coq_item(i) for i in items), tuple(e["in"]["output"]))
+        cases.setdefault(key, []).append((s, t, items, kept_impl))
+    keys = sorted(cases)
+    exprs = ["(kept code_req_tables (wstate0 code_req_tables [%s]) (map titem_of (rev [%s])))" % ("; ".join(str(c) for c in out), "; ".join(its)) for its, out in keys]
+    try:
+        mv = coq_eval(HEADER_SOB, exprs)
+    except RuntimeError:
+        mv = coq_eval(HEADER_SOB, exprs, shards=4)
+    other = []
+    for key, kept_model in zip(keys, mv):
+        for s, t, items, kept_impl in cases[key]:
+            n = len(items)
+            ck.count("split-corr", json.dumps([s, t, n, kept_impl]))
+            kept_items = items[n - kept_impl:]
+            stop_impl = items[n - kept_impl - 1] if kept_impl < n else None
+            if any(is_windowed(i) for i in kept_items):
+                ck.stat("split-corr", "windowed-kept")
+                later = [i[0] for i in kept_items[max(j for j, i in enumerate(kept_items) if is_windowed(i)) + 1:]]
+                for k in sorted(set(later)):
+                    ck.stat("split-corr", "behind-kept-window:%s" % {2: "Filter", 3: "Aggregate", 4: "Compute", 5: "ComputeAgg", 6: "Sort", 7: "Take", 8: "Take", 9: "Select", 11: "Distinct", 12: "DistinctOn"}.get(k, str(k)))
+            if is_windowed(stop_impl):
+                ck.stat("split-corr", "windowed-stop")
+            if kept_model == kept_impl:
+                ck.stat("split-corr", "agree")
+                continue
+            lo, hi = sorted((kept_model, kept_impl))
+            between = items[n - hi - 1:n - lo] if hi < n else items[:n - lo]
+            if any(is_windowed(i) for i in between):
+                ck.stat("split-corr", "disagreement:windowed")
+                ck.disagreement("split_off_back keeps %d transforms in the SELECT, the model of its complexity walk %d, and a windowed column definition lies between: %s [%s]" % (
+                    kept_impl, kept_model, s.replace("\n", " | ")[:300], t), {"src": s, "target": t, "items": [coq_item(i) for i in items], "kept_impl": kept_impl, "kept_model": kept_model}, lambda _c: None)
+            else:
+                ck.stat("split-corr", "other-disagreement")
+                if len(other) < 5:
+                    other.append({"src": s, "target": t, "kept_impl": kept_impl, "kept_model": kept_model})
+    ck.coverage["split_hook"].update({"distinct_abstract_calls": len(keys), "other_disagreements_sample": other})
